@@ -44,7 +44,7 @@ def run(rep):
     # (M) + (S->I): bounded universes, every case replayed
     for fam, depth in ([("ops", 1), ("kinds", 1), ("opts", 1)] if quick else
                        [("ops", 2), ("kinds", 2), ("asg", 1), ("mods", 1), ("opts", 2)]):
-        P.judge_universe(rep, PID, fam, depth)
+        P.judge_universe(rep, PID, fam, depth, maxlen=4 if quick else "")
     rep.exhaustive = True
     ng, per = (100, 8) if quick else (1500, 10)
     cases = random_cases(rng, ng, per)
